@@ -282,6 +282,7 @@ class PathEnumerator:
         self._step = None
         self._visited = None
         self.explored_states = 0
+        self._cond_cache = {}
 
     # ------------------------------------------------------------------------------
     def paths(self):
@@ -317,6 +318,15 @@ class PathEnumerator:
             if ev["kind"] != "write" and ev["kind"] != "call":
                 return evs, state
         return (evs, ev), state
+
+    @staticmethod
+    def path_facts(p):
+        """[(cond_term, truth)] for the bool branches taken along a recorded path"""
+        out = []
+        for e in p.events:
+            if e["kind"] == "branch" and e.get("discr_ty") == "bool" and e["value"] in (0, 1):
+                out.append((e["cond"], bool(e["value"])))
+        return out
 
     def _walk(self, bb, blocks, evs, env, cls, backcount, state):
         """env: local -> int constant; cls: local -> (variant class, payload)"""
@@ -384,11 +394,16 @@ class PathEnumerator:
                 return
             dl = d.place.local if (d.place is not None and d.place.is_local()) else None
             taken = set()
+            ck = ("cond", bb)
+            if ck not in self._cond_cache:
+                self._cond_cache[ck] = self.tb.operand(d, bb, len(blk.stmts))
+            cond = self._cond_cache[ck]
+            dty = t.j.get("discr_ty")
             for v, b in arms:
                 e2 = dict(env)
                 if dl is not None:
                     e2[dl] = v
-                evs2, state2 = self._push(evs, state, {"kind": "branch", "bb": bb, "local": dl, "value": v, "span": t.span})
+                evs2, state2 = self._push(evs, state, {"kind": "branch", "bb": bb, "local": dl, "value": v, "span": t.span, "cond": cond, "discr_ty": dty})
                 c2 = self._refine_cls(bb, dl, v, cls)
                 yield from self._next(bb, b, blocks, evs2, e2, c2, backcount, state2)
                 taken.add(v)
@@ -398,7 +413,7 @@ class PathEnumerator:
                 if dl is not None and fn.local_ty(dl) == "bool" and taken == {0}:
                     ov = 1
                     e2[dl] = 1
-                evs2, state2 = self._push(evs, state, {"kind": "branch", "bb": bb, "local": dl, "value": ov if ov is not None else "otherwise", "span": t.span})
+                evs2, state2 = self._push(evs, state, {"kind": "branch", "bb": bb, "local": dl, "value": ov if ov is not None else "otherwise", "span": t.span, "cond": cond, "discr_ty": dty})
                 c2 = self._refine_cls(bb, dl, ov, cls) if ov is not None else cls
                 yield from self._next(bb, other, blocks, evs2, e2, c2, backcount, state2)
             return
